@@ -49,12 +49,23 @@ def main():
             return fn(*a, **kw)
 
     class World:
-        def __init__(self, seed):
+        def __init__(self, seed, variant="dimer"):
             rng = numpy.random.RandomState(seed)
-            self.ag, self.ta = T.build_aggregate(
-                qr, rng, 2, J=[[0, 70.0], [70.0, 0]],
-                energies=[12000.0, 12200.0], reorg=[30.0, 45.0],
-                cortime=[80.0, 120.0], Nt=120, dt=1.0)
+            self.variant = variant
+            if variant == "dimer":
+                self.ag, self.ta = T.build_aggregate(
+                    qr, rng, 2, J=[[0, 70.0], [70.0, 0]],
+                    energies=[12000.0, 12200.0], reorg=[30.0, 45.0],
+                    cortime=[80.0, 120.0], Nt=120, dt=1.0)
+            else:
+                # couplings of both signs above the cut-off of the combined
+                # theory (26.5 1/cm) and one below it
+                self.ag, self.ta = T.build_aggregate(
+                    qr, rng, 3, J=[[0, -120.0, -15.0], [-120.0, 0, 60.0],
+                                   [-15.0, 60.0, 0]],
+                    energies=[12000.0, 12200.0, 12350.0],
+                    reorg=[30.0, 45.0, 25.0],
+                    cortime=[80.0, 120.0, 60.0], Nt=120, dt=1.0)
             ag = self.ag
             self.ham = ag.get_Hamiltonian()
             self.sbi = ag.get_SystemBathInteraction()
@@ -64,8 +75,9 @@ def main():
             n = self.HH.dim
             self.prop = ReducedDensityMatrixPropagator(self.tprop, self.HH,
                                                        RTensor=self.RT)
-            g = numpy.array([[0, 1e-3, 2e-3], [1e-3, 0, 5e-4],
-                             [2e-3, 5e-4, 0]])
+            g = numpy.array([[0, 1e-3, 2e-3, 1e-3], [1e-3, 0, 5e-4, 2e-3],
+                             [2e-3, 5e-4, 0, 1e-3],
+                             [1e-3, 2e-3, 1e-3, 0]])[:n, :n]
             self.pdG = qr.qm.PureDephasing(drates=g * 1e-1, dtype="Gaussian")
             self.pdL = qr.qm.PureDephasing(drates=g.copy(),
                                            dtype="Lorentzian")
@@ -73,13 +85,13 @@ def main():
                 self.tprop, self.HH, RTensor=self.RT, PDeph=self.pdG)
             self.propL = ReducedDensityMatrixPropagator(
                 self.tprop, self.HH, RTensor=self.RT, PDeph=self.pdL)
-            v = numpy.array([0.0, 0.8, 0.6j])
+            v = numpy.array([0.0, 0.8, 0.6j, 0.0])[:n]
             self.rho0 = qr.ReducedDensityMatrix(data=numpy.outer(v, v.conj()))
             self.psi0 = qr.StateVector(data=v.copy())
             self.svprop = StateVectorPropagator(self.tprop, self.HH)
             self.KK = RedfieldRateMatrix(self.ham, self.sbi)
             self.popprop = PopulationPropagator(self.tprop, self.KK)
-            self.p0 = numpy.array([0.0, 1.0, 0.0])
+            self.p0 = numpy.array([0.0, 1.0, 0.0, 0.0])[:n]
             self.theom = qr.TimeAxis(0.0, 30, 1.0)
             self.hy = quiet(KTHierarchy, self.ham, self.sbi, 2)
             self.kprop = KTHierarchyPropagator(self.theom, self.hy)
@@ -166,10 +178,11 @@ def main():
     # fresh results, cached per (call, arg, user refinement)
     fresh_cache = {}
 
-    def fresh(name, arg, user_nref):
-        key = (name, arg, user_nref if name == "rdm_propagate" else 0)
+    def fresh(name, arg, user_nref, variant):
+        key = (name, arg, user_nref if name == "rdm_propagate" else 0,
+               variant)
         if key not in fresh_cache:
-            w = World(ck.seed)
+            w = World(ck.seed, variant)
             if name == "rdm_propagate" and user_nref != 1:
                 w.call("set_refinement", user_nref)
             fresh_cache[key] = w.call(name, arg)
@@ -200,7 +213,7 @@ def main():
         [("set_refinement", 2), ("rdm_propagate", 1), ("build_tensor", True),
          ("rdm_propagate", 1)],
     ]
-    seqs = list(canon)
+    seqs = [(q, v) for v in ("dimer", "trimer") for q in canon]
     for beh in behs:
         seq = []
         for act, st in beh[1:]:
@@ -216,16 +229,17 @@ def main():
             elif act == "Stateless":
                 seq.append((a[0], None))
         if seq:
-            seqs.append(seq)
+            seqs.append((seq, "dimer" if len(seqs) % 2 else "trimer"))
 
-    for si, seq in enumerate(seqs):
-        w = World(ck.seed)
+    for si, (seq, variant) in enumerate(seqs):
+        w = World(ck.seed, variant)
         user_nref = 1
         polluted = False      # propagate(Nref>1) happened, no explicit reset
         hist = []
         for (name, arg) in seq:
             fp0 = w.fingerprint()
-            rp = dict(kind="history", history=hist + [[name, arg]])
+            rp = dict(kind="history", world=variant,
+                      history=hist + [[name, arg]])
             res = None
             with ck.guarded("call", name, rp, rp):
                 res = w.call(name, arg)
@@ -243,7 +257,7 @@ def main():
                 continue
             if res is None:
                 continue
-            want = fresh(name, arg, user_nref)
+            want = fresh(name, arg, user_nref, variant)
             same = (res.shape == want.shape and numpy.array_equal(res, want))
             ck.case("same-result-as-fresh", (si, len(hist)),
                     sample=dict(history=list(hist), same=bool(same)))
